@@ -119,7 +119,7 @@ Theorem compare_values_spec o e c :
 Proof.
   unfold compare_values, both_none.
   destruct (passnone o && is_py_none e && is_py_none c); [split; [intros _; left; reflexivity | reflexivity]|].
-  destruct (iscomplex_pair e c) as [[|]| |]; simpl.
+  destruct (iscomplex_pair e c) as [[|]|kk| ]; simpl.
   - rewrite cv_core_true. unfold close_c. split.
     + intros [H1 H2]. right. split; [exact H1|]. right. split; [reflexivity | exact H2].
     + intros [H|[H1 [[H _]|[_ H2]]]]; try discriminate. split; assumption.
@@ -133,47 +133,51 @@ Qed.
 Theorem compare_values_false_spec o e c :
   compare_values o e c = Ok false <->
   both_none o e c = false /\
-  ((iscomplex_pair e c = Ok false /\ Disagree (close_f o) PrimFloat.opp o (cast_with to_f e) (cast_with to_f c)) \/
+  ((exists k, iscomplex_pair e c = Raise k) \/
+   (iscomplex_pair e c = Ok false /\ Disagree (close_f o) PrimFloat.opp o (cast_with to_f e) (cast_with to_f c)) \/
    (iscomplex_pair e c = Ok true /\ Disagree (close_c o) neg_c o (cast_with to_c e) (cast_with to_c c))).
 Proof.
   unfold compare_values, both_none.
   destruct (passnone o && is_py_none e && is_py_none c); [split; [discriminate | intros [H _]; discriminate]|].
-  destruct (iscomplex_pair e c) as [[|]| |]; simpl.
+  destruct (iscomplex_pair e c) as [[|]|k| ]; simpl.
   - rewrite cv_core_false. unfold close_c. split.
-    + intro H. split; [reflexivity|]. right. split; [reflexivity | exact H].
-    + intros [_ [[H _]|[_ H]]]; [discriminate | exact H].
+    + intro H. split; [reflexivity|]. right; right. split; [reflexivity | exact H].
+    + intros [_ [[k H]|[[H _]|[_ H]]]]; [discriminate | discriminate | exact H].
   - rewrite cv_core_false. unfold close_f. split.
-    + intro H. split; [reflexivity|]. left. split; [reflexivity | exact H].
-    + intros [_ [[_ H]|[H _]]]; [exact H | discriminate].
-  - split; [discriminate | intros [_ [[H _]|[H _]]]; discriminate].
-  - split; [discriminate | intros [_ [[H _]|[H _]]]; discriminate].
+    + intro H. split; [reflexivity|]. right; left. split; [reflexivity | exact H].
+    + intros [_ [[k H]|[[_ H]|[H _]]]]; [discriminate | exact H | discriminate].
+  - split; [|reflexivity]. intros _. split; [reflexivity|]. left. exists k. reflexivity.
+  - split; [discriminate | intros [_ [[k H]|[[H _]|[H _]]]]; discriminate].
 Qed.
 
-(** the only exceptions: a ragged nest met by np.iscomplexobj (outside the try), and an unusable atol *)
+(** the only exception left: an unusable atol (met after both casts succeeded with equal shapes) *)
 Theorem compare_values_raise_spec o e c k :
-  compare_values o e c = Raise k ->
-  (k = EValue /\ iscomplex_pair e c = Raise EValue) \/ atol_exc (atol o) = Some k.
+  compare_values o e c = Raise k -> atol_exc (atol o) = Some k.
 Proof.
   unfold compare_values. destruct (passnone o && is_py_none e && is_py_none c); [discriminate|].
-  assert (Hic : forall x k', iscomplexobj x = Raise k' -> k' = EValue).
-  { intros x k' Hx. unfold iscomplexobj in Hx. destruct (nd_of x) as [[dt|] r]; try discriminate.
-    destruct r; try discriminate. inversion Hx; reflexivity. }
   destruct (iscomplex_pair e c) as [[|]|k'|] eqn:Ei; simpl; try discriminate.
   - unfold cv_core. destruct (cast_with to_c e) as [[she de]| |]; try discriminate.
     destruct (cast_with to_c c) as [[shc dc]| |]; try discriminate.
     destruct (negb (shape_eqb she shc)); try discriminate.
-    destruct (atol_exc (atol o)) eqn:Ea; [intro H; inversion H; subst; right; reflexivity | discriminate].
+    destruct (atol_exc (atol o)) eqn:Ea; [intro H; inversion H; subst; reflexivity | discriminate].
   - unfold cv_core. destruct (cast_with to_f e) as [[she de]| |]; try discriminate.
     destruct (cast_with to_f c) as [[shc dc]| |]; try discriminate.
     destruct (negb (shape_eqb she shc)); try discriminate.
-    destruct (atol_exc (atol o)) eqn:Ea; [intro H; inversion H; subst; right; reflexivity | discriminate].
-  - intro H; inversion H; subst. left.
-    assert (k = EValue).
-    { unfold iscomplex_pair in Ei. destruct (iscomplexobj e) as [[|]|k''|] eqn:Ee; simpl in Ei; try discriminate.
-      - apply (Hic c). exact Ei.
-      - inversion Ei; subst. apply (Hic e). exact Ee. }
-    subst k. split; reflexivity.
+    destruct (atol_exc (atol o)) eqn:Ea; [intro H; inversion H; subst; reflexivity | discriminate].
 Qed.
+
+(** a ragged nest on either side is a cast failure: verdict False, never an exception (65b8c68) *)
+Theorem ragged_is_false o e c k :
+  both_none o e c = false -> iscomplex_pair e c = Raise k -> compare_values o e c = Ok false.
+Proof. unfold compare_values, both_none. intros -> ->. reflexivity. Qed.
+
+Lemma ragged_expected_raises e c :
+  nd_of e = (None, NdRagged) -> iscomplex_pair e c = Raise EValue.
+Proof. intro H. unfold iscomplex_pair, iscomplexobj. rewrite H. reflexivity. Qed.
+
+Lemma ragged_computed_raises e c :
+  iscomplexobj e = Ok false -> nd_of c = (None, NdRagged) -> iscomplex_pair e c = Raise EValue.
+Proof. intros He H. unfold iscomplex_pair. rewrite He. simpl. unfold iscomplexobj. rewrite H. reflexivity. Qed.
 
 (** with a usable atol and both casts succeeding, compare_values always returns a verdict (real or complex) *)
 Theorem compare_values_total o e c cx :
@@ -183,7 +187,7 @@ Theorem compare_values_total o e c cx :
   exists v, compare_values o e c = Ok v.
 Proof.
   intros Hi Ha Hc. unfold compare_values. destruct (passnone o && is_py_none e && is_py_none c); [eexists; reflexivity|].
-  rewrite Hi. simpl. destruct cx; destruct Hc as ([she de] & [shc dc] & He & Hc); unfold cv_core; rewrite He, Hc, Ha;
+  rewrite Hi. destruct cx; destruct Hc as ([she de] & [shc dc] & He & Hc); unfold cv_core; rewrite He, Hc, Ha;
     destruct (negb (shape_eqb she shc)); eexists; reflexivity.
 Qed.
 
@@ -1054,7 +1058,7 @@ Qed.
 Theorem compare_values_raises_only o e c k :
   compare_values o e c = Raise k -> k = EValue \/ k = EOverflow.
 Proof.
-  intro H. destruct (compare_values_raise_spec _ _ _ _ H) as [[-> _]|Ha]; [left; reflexivity|].
+  intro H. apply compare_values_raise_spec in H. rename H into Ha.
   unfold atol_exc in Ha. destruct (is_nan (atol o) || PrimFloat.ltb (atol o) fzero).
   - inversion Ha; left; reflexivity.
   - destruct (PrimFloat.eqb (atol o) fzero || is_infinity (atol o)); inversion Ha. right; reflexivity.
